@@ -45,6 +45,24 @@ def wfType (model impl : Sx) : String :=
       | _ => none
   let md := (unOk model).bind diagOf
   let mdiag := if md.isSome then "yes" else "no"
+  -- a builder history: the answer is a trace of (output, state) steps; every state the
+  -- implementation reaches must be well-formed and typed like the model's state at that step
+  let traceStates := fun (x : Sx) => match x with
+    | .l steps => steps.filterMap (fun st => match st with
+        | .l [_, s] => (dec s : Option LF)
+        | _ => none)
+    | _ => []
+  let isTrace := match unOk impl with
+    | some (.l (.l [_, s] :: _)) => (dec s : Option LF).isSome
+    | _ => false
+  if isTrace then
+    let is := ((unOk impl).map traceStates).getD []
+    let ms := ((unOk model).map traceStates).getD []
+    let wfBad := (is.zip ms).any (fun p => p.2.wf && !p.1.wf)
+    let tyBad := (is.zip ms).any (fun p => p.2.wf && p.1.wf &&
+      !((enc p.2.source == enc p.1.source) && (enc p.2.target == enc p.1.target)))
+    s!"wf={if wfBad then "bad" else "ok"} type={if tyBad then "bad" else "ok"} mdiag=trace"
+  else
   match (unOk impl).bind diagOf with
   | some (Sum.inl f) =>
     let ty := match md with
